@@ -49,6 +49,83 @@ const TIME_READERS: &[&str] = &[
     "increase_liquidity_by_token_amounts_v2", "reposition_liquidity_v2", "update_fees_and_rewards", "set_reward_emissions", "set_reward_emissions_v2",
 ];
 
+
+/// compare what an update credited to a position with its exact share accumulated in the shadow ledger
+#[allow(clippy::too_many_arguments)]
+fn judge(k: &Pubkey, pre: &Position, post: &Position, sh: &Sh, pool: Option<&Pool>, name: &str, idx: usize, cov: &mut Coverage, out: &mut Vec<Violation>) {
+    for i in 0..3 {
+        let c = post.rewards[i].amount_owed.wrapping_sub(pre.rewards[i].amount_owed);
+        let initialized = pool.as_ref().map(|p| p.rewards[i].initialized()).unwrap_or(false);
+        let fl = sh.e[i].floor();
+        cov.eval(format!("{}|reward{}|init={}|earned={}|intervals={}|carve={}", name, i, initialized, !fl.is_zero(), sh.intervals[i].min(4), sh.carve[i]));
+        let cb = BigUint::from(c);
+        if cb > fl {
+            out.push(viol(
+                "credited_more_than_share",
+                idx,
+                format!("position {} ({}..{}, L={}) was credited {} of reward {} by {} but emissions x elapsed time x its liquidity share since the last update give {} (over {} intervals)", k, pre.lower, pre.upper, pre.liquidity, c, i, name, fl, sh.intervals[i]),
+            ));
+            continue;
+        }
+        let slack = (BigUint::from(sh.intervals[i]) * BigUint::from(pre.liquidity) >> 64usize) + BigUint::from(2u32);
+        let big = &fl + &slack >= (BigUint::one() << 64usize);
+        if sh.carve[i] || big {
+            cov.probe("credit_under_documented_carve_out");
+            continue;
+        }
+        if &cb + &slack < fl {
+            out.push(viol(
+                "credited_less_than_share",
+                idx,
+                format!("position {} ({}..{}, L={}) was credited {} of reward {} by {} but its exact share is {} and rounding explains at most {} (over {} intervals)", k, pre.lower, pre.upper, pre.liquidity, c, i, name, fl, slack, sh.intervals[i]),
+            ));
+        } else if !fl.is_zero() {
+            cov.probe("nonzero_reward_credit_checked");
+            cov.sample(json!({"position": k.to_string(), "reward_index": i, "liquidity": pre.liquidity.to_string(), "credited": c, "exact_share_floor": fl.to_string(), "intervals": sh.intervals[i], "by": name}));
+        }
+    }
+}
+
+impl C11 {
+    /// Active probe on a copy of the ledger, with the clock at the pool's last update (no new accrual): settling any funded
+    /// position must succeed and credit exactly what the shadow ledger holds for it. The copy is discarded.
+    fn settle_all(&mut self, l: &crate::rt::Ledger, idx: usize, cov: &mut Coverage, out: &mut Vec<Violation>) {
+        let saved_clock = crate::rt::with_ctx(|c| c.clock);
+        'pools: for (wk, pool) in decode::pools(l) {
+            if !pool.rewards.iter().any(|r| r.initialized()) {
+                continue;
+            }
+            for (k, pos) in decode::positions_of_pool(l, &wk) {
+                if pos.liquidity == 0 {
+                    continue;
+                }
+                let Some(sh) = self.shadow.get(&k).cloned() else { continue };
+                let ta = |t: i32| crate::ix::pda_tick_array(&wk, crate::gen::ta_start(t, pool.tick_spacing));
+                let ixn = crate::ix::update_fees_and_rewards(&wk, &k, &ta(pos.lower), &ta(pos.upper));
+                crate::rt::with_ctx(|c| {
+                    c.clock = saved_clock;
+                    c.clock.unix_timestamp = pool.reward_last_updated_timestamp as i64;
+                });
+                let mut f = l.clone();
+                let r = crate::rt::exec_tx_simple(&mut f, &crate::rt::Tx { ixs: vec![ixn] });
+                cov.probe("settlement_probes");
+                if !r.ok {
+                    let code = r.ix_outcomes.last().map(|o| o.code).unwrap_or(0);
+                    out.push(viol("position_cannot_be_settled", idx, format!("update_fees_and_rewards of position {} ({}..{}, L={}) at the pool's own last-update time fails with code {:#x}", k, pos.lower, pos.upper, pos.liquidity, code)));
+                    break 'pools;
+                }
+                if let Some(post) = f.data(&k).and_then(decode::position) {
+                    judge(&k, &pos, &post, &sh, Some(&pool), "update_fees_and_rewards (probe)", idx, cov, out);
+                }
+                if !out.is_empty() {
+                    break 'pools;
+                }
+            }
+        }
+        crate::rt::with_ctx(|c| c.clock = saved_clock);
+    }
+}
+
 impl C11 {
     pub fn new() -> C11 {
         C11::default()
@@ -129,37 +206,7 @@ impl C11 {
                     }
                     let sh = self.shadow.remove(&k).unwrap_or_else(Sh::new);
                     let pool = v.pre.data(&pre.whirlpool).and_then(decode::pool);
-                    for i in 0..3 {
-                        let c = post.rewards[i].amount_owed.wrapping_sub(pre.rewards[i].amount_owed);
-                        let initialized = pool.as_ref().map(|p| p.rewards[i].initialized()).unwrap_or(false);
-                        let fl = sh.e[i].floor();
-                        cov.eval(format!("{}|reward{}|init={}|earned={}|intervals={}|carve={}", name, i, initialized, !fl.is_zero(), sh.intervals[i].min(4), sh.carve[i]));
-                        let cb = BigUint::from(c);
-                        if cb > fl {
-                            out.push(viol(
-                                "credited_more_than_share",
-                                idx,
-                                format!("position {} ({}..{}, L={}) was credited {} of reward {} by {} but emissions x elapsed time x its liquidity share since the last update give {} (over {} intervals)", k, pre.lower, pre.upper, pre.liquidity, c, i, name, fl, sh.intervals[i]),
-                            ));
-                            continue;
-                        }
-                        let slack = (BigUint::from(sh.intervals[i]) * BigUint::from(pre.liquidity) >> 64usize) + BigUint::from(2u32);
-                        let big = &fl + &slack >= (BigUint::one() << 64usize);
-                        if sh.carve[i] || big {
-                            cov.probe("credit_under_documented_carve_out");
-                            continue;
-                        }
-                        if &cb + &slack < fl {
-                            out.push(viol(
-                                "credited_less_than_share",
-                                idx,
-                                format!("position {} ({}..{}, L={}) was credited {} of reward {} by {} but its exact share is {} and rounding explains at most {} (over {} intervals)", k, pre.lower, pre.upper, pre.liquidity, c, i, name, fl, slack, sh.intervals[i]),
-                            ));
-                        } else if !fl.is_zero() {
-                            cov.probe("nonzero_reward_credit_checked");
-                            cov.sample(json!({"position": k.to_string(), "reward_index": i, "liquidity": pre.liquidity.to_string(), "credited": c, "exact_share_floor": fl.to_string(), "intervals": sh.intervals[i], "by": name}));
-                        }
-                    }
+                    judge(&k, &pre, &post, &sh, pool.as_ref(), name, idx, cov, out);
                     self.shadow.insert(k, Sh::new());
                 }
                 _ => {}
@@ -258,6 +305,14 @@ impl Monitor for C11 {
                 }
             }
         }
+        if out.is_empty() && ev.out.ok && ev.salt % 24 == 7 {
+            self.settle_all(ev.post, ev.idx, cov, &mut out);
+        }
+        out
+    }
+    fn end_of_run(&mut self, l: &crate::rt::Ledger, cov: &mut Coverage) -> Vec<Violation> {
+        let mut out = Vec::new();
+        self.settle_all(l, usize::MAX, cov, &mut out);
         out
     }
 }
